@@ -53,6 +53,8 @@ they cost no depth.  The Seed clauses are additionally enumerated exhaustively o
 fallback), through the same real event manager.  Two scenario families (see _family_cases) enumerate the cross-session
 wrapper collisions and the one-shot / trailing-slash cases exhaustively instead of reaching them by deeper BFS; a third
 family (_repeated_cases) grants ONE name up to 8 times per kind (BFS depth cannot hold 5+ grants of one name plus lookups);
+a fifth (_shared_asset_cases) sends Seed responses in which several wrappable asset caps share one upstream URL (new clause
+wrapper-resolves-to-own-cap: the URL presented for cap X must resolve to <X>ProxyWrapper);
 a fourth (_upload_cases) registers one-shots the way production does: event ("upload", reg, name, uploader_url) pushes a
 request and a {"uploader": url} response for an UPLOAD_CREATING_CAPS name through the real event manager.
 Additional clauses: wrapper-url-unique (one wrapper URL handed out for two regions), lookup-raises / call-raises (an
@@ -385,7 +387,7 @@ class Harness:
             _bad(w, "lookup-mutates-state", "resolve_cap (non-temporary)", "a sweep of non-consuming lookups changed some region's caps")
         return tuple(obs)
 
-    def strict_wrapper_check(self, w: World, reg: int, wurl: Any, site: str, clause: str):
+    def strict_wrapper_check(self, w: World, reg: int, wurl: Any, site: str, clause: str, name: Optional[str] = None):
         if not isinstance(wurl, str) or not wurl.startswith("http"):
             _bad(w, clause, site, f"wrapper URL for region {reg} is {wurl!r}")
             return
@@ -393,20 +395,25 @@ class Harness:
             res = self.call(w, "mgr", wurl + suffix)
             if res is None or res[1] != "WRAPPER" or res[2] != reg or res[3] != reg // 2:
                 _bad(w, clause, site, f"wrapper URL {wurl + suffix!r} handed out for region {reg} (session {reg // 2}) resolves to {res}")
+            elif name is not None and res[0] != name:
+                # the URL presented for asset cap X must be attributed to X's own wrapper (<X>ProxyWrapper), not to a sibling's
+                _bad(w, "wrapper-resolves-to-own-cap", site,
+                     f"wrapper URL {wurl + suffix!r} handed out as {name} for region {reg} resolves to cap {res[0]!r}")
 
     def check_all_wrappers(self, w: World, site: str, clause: str):
-        owner: Dict[str, int] = {}
+        owner: Dict[str, Tuple[int, str]] = {}
         for reg in range(N_REG):
             for g in w.grants[reg]:
                 if g[1] != "WRAPPER":
                     continue
                 if g[2] in owner:
-                    if owner[g[2]] != reg:
+                    if owner[g[2]] != (reg, g[0]):
                         _bad(w, "wrapper-url-unique", site,
-                             f"wrapper URL {g[2]!r} was handed out for region {owner[g[2]]} and for region {reg}: it cannot resolve back to both")
+                             f"wrapper URL {g[2]!r} was handed out as {owner[g[2]][1]} of region {owner[g[2]][0]} and as {g[0]} of "
+                             f"region {reg}: it cannot resolve back to both")
                     continue
-                owner[g[2]] = reg
-                self.strict_wrapper_check(w, reg, g[2], site, clause)
+                owner[g[2]] = (reg, g[0])
+                self.strict_wrapper_check(w, reg, g[2], site, clause, name=g[0])
 
     def guarded(self, w: World, site: str, fn, *args, **kw):
         """Call into the code under test; an exception is a verdict (clause call-raises), not a harness crash."""
@@ -795,6 +802,31 @@ def _repeated_cases():
                     yield ("repeated-grants", temps + [("lookup", api, _g(n) + SUFFIXES[i % 2]) for i, n in enumerate(seq)])
 
 
+ASSET_NAMES = ("GetMesh", "GetMesh2", "GetTexture", "ViewerAsset")
+
+
+def _shared_asset_cases():
+    """shared-asset-urls: one Seed request/response pair per case through the real event manager; the simulator grants the
+    four wrappable asset caps such that every 2-, 3- and 4-subset of them shares ONE upstream URL (the others absent, or
+    present with pairwise distinct URLs), plus the all-distinct grant; map key order forwards and reversed; then a second
+    Seed response repeats the grant (re-grant of every wrapper).  Oracle (unchanged sentences, now per cap): every URL
+    presented for asset cap X resolves to X's own <X>ProxyWrapper, WRAPPER type, that region and session."""
+    viewer = (EQG,) + ASSET_NAMES
+    for reg in _FAMILY_REGS:
+        for shared in _FAMILY_URLS:
+            grants = [tuple((n, _g(i + 1)) for i, n in enumerate(ASSET_NAMES))]          # all distinct
+            for k in (2, 3, 4):
+                for sub in itertools.combinations(ASSET_NAMES, k):
+                    grants.append(tuple((n, shared) for n in sub))
+                    if k < 4:
+                        grants.append(tuple((n, shared) if n in sub else (n, _g(i + 1)) for i, n in enumerate(ASSET_NAMES)))
+            for grant in grants:
+                for order in (grant, tuple(reversed(grant))):
+                    full = ((EQG, A1),) + order
+                    yield ("shared-asset-urls", [("seedreq", reg, 0, viewer), ("seedresp", full),
+                                                 ("seedreq", reg, 0, viewer), ("seedresp", full)])
+
+
 _UPLOAD_FULL = False
 
 
@@ -841,6 +873,8 @@ def _family_worker(case):
         part.sample({"search": "family:" + label, "history": history, "last_output": w.last_out})
     if label == "uploads" and len(history) == 7 and history[-1][2].endswith("u1"):
         part.sample({"search": "family:" + label, "history": history, "last_output": w.last_out}, limit=1)
+    if label == "shared-asset-urls" and len(history[1][1]) == 5 and len({u for _, u in history[1][1]}) == 2:
+        part.sample({"search": "family:" + label, "history": history[:2], "rewritten_response": w.last_out}, limit=1)
     if label == "repeated-grants":
         part.count("repeated_grant_steps", len(history))
         if history[0][0] == "proxy":
@@ -869,7 +903,9 @@ def run(run: Run):
                 "Seed responses, WRAPPER, PROXY_ONLY then NORMAL, and 1..8 one-shots in flight consumed oldest-/newest-first per "
                 "API -- with the full sweep after every grant; uploads: for every name in UPLOAD_CREATING_CAPS x region, 1..3 "
                 "upload-creating responses through the real _handle_response before any uploader is used, then the uploader URLs "
-                "resolved in every order). non-trivial = distinct (feature set, model) with a URL extending >= 2 live grants, a "
+                "resolved in every order; shared-asset-urls: Seed responses in which every 2-/3-/4-subset of GetMesh, GetMesh2, "
+                "GetTexture, ViewerAsset shares one upstream URL (others absent or distinct) plus all-distinct, each presented URL "
+                "must resolve to its own <Cap>ProxyWrapper). non-trivial = distinct (feature set, model) with a URL extending >= 2 live grants, a "
                 "re-granted name, a consumed temporary, a second register_proxy_cap, a wrapper, a re-seed, a stripped seed request "
                 "or a wrapped seed response; every family case")
     run.assumptions += [
@@ -881,7 +917,9 @@ def run(run: Run):
         "plain asset caps (GetMesh2, NORMAL) may resolve with region/session None, as documented in Session.resolve_cap",
         "a URL extending several live grants (same URL twice, textual prefix, several regions) may resolve to any of them; "
         "'extends' is textual (str.startswith), so https://sim/cap/a does NOT extend a cap granted as https://sim/cap/a/",
-        "wrapper URLs are exempt from the any-of-them rule: each must resolve to the region/session it was handed out for",
+        "wrapper URLs are exempt from the any-of-them rule: each must resolve to the region/session it was handed out for and "
+        "to its own cap's wrapper entry (<Cap>ProxyWrapper, the documented naming the wrapper redirect relies on); one wrapper "
+        "URL handed out for two regions or for two caps is a violation (wrapper-url-unique)",
         "an exception escaping resolve_cap / register_* / update_caps / the event manager's pump is a violation (lookup-raises, call-raises)",
         "trusted base: hippolyzer.lib.base.llsd for list/map-of-string bodies, mitmproxy flow (de)serialisation, "
         "in-memory stand-ins for multiprocessing queues/events, viewer cache-dir probing stubbed out",
@@ -903,7 +941,7 @@ def run(run: Run):
     run.coverage_extra["seed_enumeration"] = {"prefixes": len(SEED_PREFIXES), "viewer_lists": len(cases) // len(SEED_PREFIXES),
                                               "cases": run.counters.get("seed_cases", 0), "grant_urls": list(_SEED_URLS)}
     # scenario families
-    fam = list(_family_cases()) + list(_repeated_cases()) + list(_upload_cases())
+    fam = list(_family_cases()) + list(_repeated_cases()) + list(_upload_cases()) + list(_shared_asset_cases())
     for d in pmap(_family_worker, fam, run.jobs):
         run.merge(d)
     run.coverage_extra["families"] = {"wrappers": sum(1 for c in fam if c[0] == "wrappers"),
@@ -911,6 +949,7 @@ def run(run: Run):
                                       "repeated-grants": sum(1 for c in fam if c[0] == "repeated-grants"),
                                       "repeated_grants_k": REPEAT_K,
                                       "uploads": sum(1 for c in fam if c[0] == "uploads"),
+                                      "shared-asset-urls": sum(1 for c in fam if c[0] == "shared-asset-urls"),
                                       "urls": list(_FAMILY_URLS), "one_shot_regions": list(_FAMILY_REGS)}
     # shrink witnesses
     for v in run.violations:
